@@ -406,9 +406,10 @@ class RequestHandler(BaseProtocol, Generic[_Request]):
             transport = self._manager._connections.get(self)
         self.force_close()
 
-        if transport is not None and transport.get_write_buffer_size() > 0:
-            # A complete response is still being flushed to a slow peer and
-            # close() waits for that: allow for it within the timeout only.
+        if transport is not None and not self._request_in_progress:
+            # Not aborted above and close() waits for the peer: a complete
+            # response is still being flushed to a slow reader, or a TLS
+            # close_notify is unanswered. Allow for it within the timeout only.
             waiter = self._closed_waiter = self._loop.create_future()
             try:
                 await asyncio.wait((waiter,), timeout=timeout)
